@@ -423,12 +423,52 @@ func (w *seqWorld) exec(c *seqCmd) {
 			low = 1
 		}
 		w.ev("%d launch submit %d %d", in.id, e.ID, low)
+		w.sched.nextMayBlock = len(e.Pending.Issuers) > 0
 		a := w.sched.launchGen("submit", in.id, in.gen, func(ctx context.Context) any {
 			f, src := l.VerifAddLeaf(ctx, e.Pending, c.Low)
 			return res{f, src}
 		})
 		a.sub = s
 		evictExpected := false
+		awaitEvict := func() {
+			if evictExpected {
+				// exactly one pending low-priority waiter of this pool must report eviction promptly
+				deadline := time.After(5 * time.Second)
+				for {
+					found := false
+					for _, p := range in.poolSubs {
+						if p.low && !p.got {
+							select {
+							case <-p.done:
+								w.report(p)
+								found = true
+								// duplicates attached to the victim's slot are woken by the same close: let them report
+								// now, so that the order of the trace does not depend on goroutine scheduling
+								for _, q := range in.poolSubs {
+									if q != p && !q.got && q.entry.KeyID == p.entry.KeyID {
+										select {
+										case <-q.done:
+											w.report(q)
+										case <-time.After(time.Second):
+										}
+									}
+								}
+							default:
+							}
+						}
+					}
+					if found {
+						break
+					}
+					select {
+					case <-deadline:
+						w.orc.fail("C17", "no-eviction", "a high-priority submission was admitted to a full pool but no low-priority waiter was evicted")
+						return
+					case <-time.After(100 * time.Microsecond):
+					}
+				}
+			}
+		}
 		a.onDone = func(r any) {
 			x := r.(res)
 			s.source = x.src
@@ -478,36 +518,11 @@ func (w *seqWorld) exec(c *seqCmd) {
 				}
 				s.err = err
 			}()
+			if evictExpected {
+				awaitEvict()
+			}
 		}
 		w.after(in)
-		func() {
-			if evictExpected {
-				// exactly one pending low-priority waiter of this pool must report eviction promptly
-				deadline := time.After(5 * time.Second)
-				for {
-					found := false
-					for _, p := range in.poolSubs {
-						if p.low && !p.got {
-							select {
-							case <-p.done:
-								w.report(p)
-								found = true
-							default:
-							}
-						}
-					}
-					if found {
-						break
-					}
-					select {
-					case <-deadline:
-						w.orc.fail("C17", "no-eviction", "a high-priority submission was admitted to a full pool but no low-priority waiter was evicted")
-						return
-					case <-time.After(100 * time.Microsecond):
-					}
-				}
-			}
-		}()
 	case "step":
 		as := w.actorsOf(in)
 		var ops []*pendingOp
@@ -645,6 +660,7 @@ func (w *seqWorld) grantOp(in *seqInst, op *pendingOp, out outcome) {
 			idx = i
 		}
 	}
+	junk := 0
 	// parallel batch bookkeeping: after the CAS of a round / the staging fetch of a load, expect the whole batch
 	if (op.kind == "lockreplace" || (op.kind == "fetch" && strings.HasPrefix(op.key, "staging/"))) && out == outOK {
 		if op.kind == "lockreplace" {
@@ -652,10 +668,30 @@ func (w *seqWorld) grantOp(in *seqInst, op *pendingOp, out outcome) {
 		} else if data, _, ok := w.object(op.key); ok {
 			if ents, err := parseBundle(data); err == nil {
 				a.expect = len(ents)
+			} else {
+				junk = bundlePrefix(data)
 			}
 		}
 	}
 	w.sched.grant(a, idx, out)
+	if junk > 0 {
+		// applyStagedUploads starts the upload of each entry before it reads the next header and does not wait for them
+		// when a later header fails to parse: a bundle tampered with in its tail is applied as far as it parses. Those
+		// uploads run whether or not LoadLog has already returned its error; here they are all let through before the
+		// outcome of the load is recorded, so that the trace does not depend on goroutine scheduling.
+		deadline := time.Now().Add(300 * time.Millisecond)
+		for len(w.sched.pendingOf(a)) < junk && time.Now().Before(deadline) {
+			time.Sleep(200 * time.Microsecond)
+		}
+		for k := 0; k < junk; k++ {
+			ops := w.sched.pendingOf(a)
+			if len(ops) == 0 {
+				break
+			}
+			w.st.Count("op:upload-from-tampered-bundle")
+			w.sched.grant(a, 0, outOK)
+		}
+	}
 }
 
 // after handles completion of the instance's actors.
